@@ -149,7 +149,15 @@ func mergeBuild(c any, o any, path tree.Path) (any, error) {
 		}
 		return nil
 	}
-	return mergeMappings(toBuild(c), toBuild(o), path)
+	base, other := toBuild(c), toBuild(o)
+	if base == nil {
+		// base is null or not a valid build definition: nothing to merge into
+		if other == nil {
+			return o, nil
+		}
+		return other, nil
+	}
+	return mergeMappings(base, other, path)
 }
 
 func mergeDependsOn(c any, o any, path tree.Path) (any, error) {
